@@ -169,6 +169,7 @@ package cqrs
 // ---- processors (C15) ----
 
 //@ func (CommandProcessor).routerHandlerFunc$1
+//@   assert @call:handle: msg.ctx != nil && ctxval(msg.ctx, boxed(originalMessage)) == boxed(msg) [the-message-handed-to-the-handler-or-to-OnHandle-carries-itself-as-the-original-message-in-its-context]
 //@   requires msg != nil && handler != nil && p.config.Marshaler != nil && logger != nil
 //@   callee NC = handler.NewCommand
 //@   callee NFM = p.config.Marshaler.NameFromMessage : function mnfm
@@ -185,6 +186,7 @@ package cqrs
 //@   modifies msg.ctx
 
 //@ func (EventProcessor).routerHandlerFunc$1
+//@   assert @call:handle: msg.ctx != nil && ctxval(msg.ctx, boxed(originalMessage)) == boxed(msg) [the-message-handed-to-the-handler-or-to-OnHandle-carries-itself-as-the-original-message-in-its-context]
 //@   requires msg != nil && handler != nil && p.config.Marshaler != nil && logger != nil
 //@   callee NE = handler.NewEvent
 //@   callee NFM = p.config.Marshaler.NameFromMessage : function mnfm
@@ -200,6 +202,7 @@ package cqrs
 //@   modifies msg.ctx
 
 //@ func (EventGroupProcessor).routerHandlerGroupFunc$1
+//@   assert @call:handle: msg.ctx != nil && ctxval(msg.ctx, boxed(originalMessage)) == boxed(msg) [the-message-handed-to-the-handler-or-to-OnHandle-carries-itself-as-the-original-message-in-its-context]
 //@   requires msg != nil && p.config.Marshaler != nil && logger != nil
 //@   requires forall j int :: 0 <= j && j < len(handlers) ==> handlers[j] != nil
 //@   callee NE = handler.NewEvent
